@@ -218,6 +218,10 @@ func (node *BinaryExprNode) getTypedExpr() (BoolNode, error) {
 
 func (node *BinaryExprNode) handleIsNullOps() (BoolNode, error) {
 	symbolNode, isSymbol := node.left.(SymbolNode)
+	if _, isCount := node.left.(*CountSetExprNode); isCount {
+		// a count is never null, and a set symbol can't be evaluated outside of a set iteration
+		isSymbol = false
+	}
 	if isSymbol && (node.op == BinaryOpEQ || node.op == BinaryOpNEQ) {
 		return &IsNilExprNode{
 			symbol: symbolNode,
